@@ -261,6 +261,7 @@ type vpC14Hist struct {
 	Plan      []int
 	EOFFirst  bool   // nobytes: client EOF is already there when the server gets the connection
 	End       string // eof | timeout | shutdown (left idle; Server.Shutdown ends it)
+	WriteFail int    // > 0: the client is gone for writing - Write fails once this many bytes went out (a fault at whichever write crosses it)
 }
 
 func (h vpC14Hist) String() string {
@@ -268,7 +269,7 @@ func (h vpC14Hist) String() string {
 	for _, u := range h.Units {
 		us = append(us, vpQuote(u, 60))
 	}
-	return fmt.Sprintf("{%s units=[%s] trailing=%d pipelined=%v plan=%v eoffirst=%v end=%s}", h.Kind, strings.Join(us, ", "), len(h.Trailing), h.Pipelined, h.Plan, h.EOFFirst, h.End)
+	return fmt.Sprintf("{%s units=[%s] trailing=%d pipelined=%v plan=%v eoffirst=%v end=%s writefail=%d}", h.Kind, strings.Join(us, ", "), len(h.Trailing), h.Pipelined, h.Plan, h.EOFFirst, h.End, h.WriteFail)
 }
 
 type vpC14Cfg struct {
@@ -418,6 +419,7 @@ func (e *vpC14Env) serve(w *vpWire) {
 // rejection scenario); the returned finish func ends it.
 func (e *vpC14Env) runConn(h vpC14Hist, hold bool) (w *vpWire, starts []int, finish func()) {
 	w = vpNewWire(nil, h.Plan, false)
+	w.writeErrAfter = h.WriteFail
 	e.mu.Lock()
 	e.nWires++
 	w.remote = &net.TCPAddr{IP: net.IPv4(10, 1, 2, byte(3+e.nWires%2)), Port: 40000 + e.nWires}
@@ -714,6 +716,11 @@ func vpC14GenHist(t *rapid.T, lb string, kind string) vpC14Hist {
 			genReqs(1, 2, false)
 		}
 		h.Pipelined = true
+	}
+	if (kind == "requests" || kind == "hijack" || kind == "malformed" || kind == "partial") && rapid.IntRange(0, 4).Draw(t, lb+"writefail") == 0 {
+		// a write fault: at the first byte, inside the first response, or at a later response / the write-out that
+		// precedes a hijack hand-over
+		h.WriteFail = rapid.SampledFrom([]int{1, 1, 30, 150, 200, 350}).Draw(t, lb+"writefailat")
 	}
 	return h
 }
